@@ -10,7 +10,8 @@ ERROR awkward_ListArray_min_range(
   const C* fromstarts,
   const C* fromstops,
   int64_t lenstarts) {
-  int64_t shorter = fromstops[0] - fromstarts[0];
+  // an array without lists has no shortest list: report 0 rather than read item 0
+  int64_t shorter = (lenstarts == 0 ? 0 : fromstops[0] - fromstarts[0]);
   for (int64_t i = 1;  i < lenstarts;  i++) {
     int64_t rangeval = fromstops[i] - fromstarts[i];
     shorter = (shorter < rangeval) ? shorter : rangeval;
